@@ -48,6 +48,14 @@ def common_args(ped, ch):
     return (ped.ploidy, ped.parents, ch, ped.tau, ped.lam, ped.err, ped.read_dists, ped.read_counts, ped.haps, ped.logf)
 
 
+
+def setup_extra():
+    from .. import cliflow
+
+    for part in (("asm", 0), ("hand", 1)):
+        cliflow.pedigree_flow(Result(), {}, 0, part)
+
+
 def plan(tier, seed):
     jobs = []
     for name in shapes():
